@@ -1110,13 +1110,19 @@ class _HLGExprSequence(Expr):
             return None
         from dask.highlevelgraph import HighLevelGraph
 
-        groups = toolz.groupby(
-            lambda x: x.low_level_optimizer if isinstance(x, HLGExpr) else None,
-            self.operands,
-        )
+        # Only merge *consecutive* operands that share an optimizer. The results
+        # are handed back by position, so grouping operands from anywhere in the
+        # sequence would permute them (e.g. ``compute(array, bag, array)``).
+        groups: list[tuple[Any, list]] = []
+        for op in self.operands:
+            optimizer = op.low_level_optimizer if isinstance(op, HLGExpr) else None
+            if groups and groups[-1][0] == optimizer:
+                groups[-1][1].append(op)
+            else:
+                groups.append((optimizer, [op]))
         exprs = []
         changed = False
-        for optimizer, group in groups.items():
+        for optimizer, group in groups:
             if len(group) > 1:
                 graphs = [expr.hlg for expr in group]
 
